@@ -7,6 +7,7 @@ import (
 	"errors"
 	"fmt"
 	"io"
+	"sort"
 	"strconv"
 	"strings"
 	"time"
@@ -272,6 +273,15 @@ func run(c Case) ev.Verdict {
 		return v
 	}
 
+	if err != nil && c.Hello.SessionID == "" && errors.Is(err, util.ErrNetconfError) {
+		// a server hello must carry a session-id (RFC 6241): refusing one that does not is as
+		// defensible as accepting it; the statement lists neither among the failure cases
+		v.OK = true
+		v.Classes = append(v.Classes, "hello-without-session-id-refused")
+
+		return v
+	}
+
 	if err != nil {
 		return ev.Fail("Open failed: %v (adv10=%v adv11=%v preferred=%q)", err, c.Adv10, c.Adv11, c.Preferred)
 	}
@@ -282,9 +292,15 @@ func run(c Case) ev.Verdict {
 		return ev.Fail("selected version %q, want %q (adv10=%v adv11=%v preferred=%q)", d.SelectedVersion, wantVersion, c.Adv10, c.Adv11, c.Preferred)
 	}
 
-	got := d.ServerCapabilities()
-	if strings.Join(got, "\x00") != strings.Join(c.Hello.Caps, "\x00") {
-		return ev.Fail("ServerCapabilities() = %q, want %q", got, c.Hello.Caps)
+	// "exactly those of the server's hello": the same capabilities, each as often; no order is stated
+	got := append([]string(nil), d.ServerCapabilities()...)
+	wantCaps := append([]string(nil), c.Hello.Caps...)
+
+	sort.Strings(got)
+	sort.Strings(wantCaps)
+
+	if strings.Join(got, "\x00") != strings.Join(wantCaps, "\x00") {
+		return ev.Fail("ServerCapabilities() = %q, want (in any order) %q", d.ServerCapabilities(), c.Hello.Caps)
 	}
 
 	wantSID := uint64(0)
